@@ -2983,12 +2983,60 @@ theorem specPairsPos_isCol (env : Env) (tgt : List String) (cs : List String) (i
   obtain ⟨x, hx', rfl⟩ := List.mem_map.mp hx
   exact srcKeys_isCol _ _ _ x hx'
 
-/-- **end to end, query level, column list** -/
-theorem exWriteQueryCols_exact (env : Env) (isInsert : Bool) (tgt : List String) (cs : List String) (d : Bool)
+/-- the table-level tags of a statement holder, as far as the projection onto table lineage needs them (`Proofs/Projection.lean`):
+    every table of the FROM clause is READ, the target is WRITTEN, nothing is tagged DROP -/
+structure TagFacts (g : LGraph) (tabs : List DObj) (T : DS) : Prop where
+  rd : ∀ d ∈ tabs.map (·.d), g.tag (.ds d) .read = some true
+  wr : g.tag (.ds T) .write = some true
+  nodrop : ∀ n, g.tag n .drop ≠ some true
+
+theorem tag_foldl_addReadO_ne (t : Tag) (ht : t ≠ .read) : ∀ (l : List DObj), (∀ o ∈ l, isTabRef o = true) →
+    ∀ (g : LGraph) (n : Node), (l.foldl addReadO g).tag n t = g.tag n t
+  | [], _, _, _ => rfl
+  | o :: r, hl, g, n => by
+    obtain ⟨s, nm, a, rfl⟩ := tabRef_cases o (hl o (by simp))
+    simp only [List.foldl_cons]
+    rw [tag_foldl_addReadO_ne t ht r (fun x hx => hl x (by simp [hx])), addReadO_tab, tag_addEdge, tag_setTag]
+    rw [if_neg]
+    intro h
+    exact ht h.2
+
+theorem tag_addWriteColumns (g : LGraph) (cols : List Column) (n : Node) (t : Tag) :
+    (addWriteColumns g cols).tag n t = g.tag n t := by
+  unfold addWriteColumns
+  split
+  · rfl
+  · rename_i t0 _
+    have key : ∀ (tp : DS × String) (l : List (Column × Nat)) (g0 : LGraph),
+        (l.foldl (fun g ci => g.addEdge (.ds t0) (ci.1.addParent tp).key .hasColumn (some ci.2) none
+          (some (.col (ci.1.addParent tp)))) g0).tag n t = g0.tag n t := by
+      intro tp l
+      induction l with
+      | nil => intro g0; rfl
+      | cons x r ih => intro g0; simp only [List.foldl_cons]; rw [ih]; simp only [tag_addEdge]
+    exact key _ _ g
+
+/-- tag facts of `B ∘ g2` from the wiring invariant: `g2` carries the tags of the holder after the reads -/
+theorem tagFacts_of_wired (B' B : LGraph) (tabs : List DObj) (T : DS) (g2 : LGraph) (K : List (Node × Node))
+    (hl : ∀ o ∈ tabs, isTabRef o = true)
+    (hb : ReadBase (tabs.foldl addReadO B) tabs T) (hw : Wired (tabs.foldl addReadO B) g2 K)
+    (hBd : ∀ n, B.tag n .drop = none) (hB'd : ∀ n, B'.tag n .drop = none) :
+    TagFacts (B'.compose g2) tabs T := by
+  refine ⟨?_, ?_, ?_⟩
+  · intro d hd
+    rw [tag_compose, hw.tg, (hb.rd d).mpr hd]
+  · rw [tag_compose, hw.tg, (hb.wr T).mpr rfl]
+  · intro n
+    rw [tag_compose, hw.tg, tag_foldl_addReadO_ne .drop (by decide) tabs hl, hBd, hB'd]
+    simp
+
+/-- **end to end, query level, column list** (with the tag facts) -/
+theorem exWriteQueryCols_exact' (env : Env) (isInsert : Bool) (tgt : List String) (cs : List String) (d : Bool)
     (its : List Item) (frm : List FromExpr) (wh : Option Expr) (grp : List Expr) (hav : Option Expr)
     (hp : env.prov.truthy = false) (hfrag : fragSelectCols env tgt cs (.select d its frm wh grp hav) = true) :
     ∃ g, exWriteQuery env isInsert tgt (some cs) (.select d its frm wh grp hav) = .ok g ∧
-      EdgesExact g (specPairsPos env tgt cs its frm) (fromTabs env frm) (listedOwners env tgt cs) := by
+      EdgesExact g (specPairsPos env tgt cs its frm) (fromTabs env frm) (listedOwners env tgt cs) ∧
+      TagFacts g (fromTabs env frm) (mkTable env tgt none).d := by
   simp only [fragSelectCols, Bool.and_eq_true, Bool.not_eq_true', List.any_eq_false, beq_iff_eq, decide_eq_true_eq] at hfrag
   obtain ⟨⟨⟨⟨⟨⟨hf, hw⟩, hU⟩, hself⟩, hlen⟩, hnd⟩, hits⟩ := hfrag
   have hTR := fromTabs_isTabRef env frm
@@ -3080,7 +3128,11 @@ theorem exWriteQueryCols_exact (env : Env) (isInsert : Bool) (tgt : List String)
       exact ⟨hk.1, fun y hy => ⟨(hk.2 y hy).1, (hk.2 y hy).2 _ rfl⟩⟩)
   refine ⟨_, ?_, edgesExact_compose (addWriteColumns (g0 ⟨.table s nm, al⟩) (cs.map listColumn)) g2 _ _ _ ?_
     (wf_addWriteColumns _ _ (g0_wf _)).edges
-    (edgesExact_of_wired hb (hw2.congr ?_) (specPairsPos_isCol env tgt cs its frm) ?_ ?_)⟩
+    (edgesExact_of_wired hb (hw2.congr ?_) (specPairsPos_isCol env tgt cs its frm) ?_ ?_),
+    by
+      exact tagFacts_of_wired _ _ (fromTabs env frm) (.table s nm) g2 _ hTR hb hw2
+        (by intro n; rw [tag_addWriteColumns, g0_tag]; simp)
+        (by intro n; rw [tag_addWriteColumns, g0_tag]; simp)⟩
   · rw [exWriteQuery_eq]
     unfold wq0
     rw [writeTargetHolder_some env isInsert tgt cs hp s nm al hmk,
@@ -3106,6 +3158,15 @@ theorem exWriteQueryCols_exact (env : Env) (isInsert : Bool) (tgt : List String)
     obtain ⟨c, _, rfl⟩ := List.mem_map.mp hp'
     exact ⟨rfl, rfl⟩
 
+
+/-- **end to end, query level, column list** -/
+theorem exWriteQueryCols_exact (env : Env) (isInsert : Bool) (tgt : List String) (cs : List String) (d : Bool)
+    (its : List Item) (frm : List FromExpr) (wh : Option Expr) (grp : List Expr) (hav : Option Expr)
+    (hp : env.prov.truthy = false) (hfrag : fragSelectCols env tgt cs (.select d its frm wh grp hav) = true) :
+    ∃ g, exWriteQuery env isInsert tgt (some cs) (.select d its frm wh grp hav) = .ok g ∧
+      EdgesExact g (specPairsPos env tgt cs its frm) (fromTabs env frm) (listedOwners env tgt cs) := by
+  obtain ⟨g, h1, h2, _⟩ := exWriteQueryCols_exact' env isInsert tgt cs d its frm wh grp hav hp hfrag
+  exact ⟨g, h1, h2⟩
 
 /-- **end to end, statement level, column list** -/
 theorem analyze_exact_cols (env : Env) (silent : Bool) (s : Stmt) (hp : env.prov.truthy = false)
@@ -3759,11 +3820,12 @@ theorem specPairsUnion_isCol (env : Env) (tgt : List String) (parts : List (List
 
 
 /-- **end to end, query level, set operation** -/
-theorem exWriteQueryUnion_exact (env : Env) (isInsert : Bool) (tgt : List String) (first : Branch) (rest : List OpBranch)
+theorem exWriteQueryUnion_exact' (env : Env) (isInsert : Bool) (tgt : List String) (first : Branch) (rest : List OpBranch)
     (hp : env.prov.truthy = false) (hfrag : fragSetop env tgt (.setop first rest) = true) :
     ∃ g, exWriteQuery env isInsert tgt none (.setop first rest) = .ok g ∧
       EdgesExact g (specPairsUnion env tgt (setopParts first rest))
-        ((setopParts first rest).flatMap (fun b => fromTabs env b.2)) [] := by
+        ((setopParts first rest).flatMap (fun b => fromTabs env b.2)) [] ∧
+      TagFacts g ((setopParts first rest).flatMap (fun b => fromTabs env b.2)) (mkTable env tgt none).d := by
   simp only [fragSetop, Bool.and_eq_true, Bool.not_eq_true', List.any_eq_false, beq_iff_eq, decide_eq_true_eq] at hfrag
   obtain ⟨⟨⟨⟨⟨hf, hr⟩, hself⟩, hparts⟩, hkeys1⟩, hnd⟩ := hfrag
   obtain ⟨s, nm, al, hmk⟩ : ∃ s nm al, mkTable env tgt none = ⟨.table s nm, al⟩ := ⟨_, _, _, rfl⟩
@@ -3905,7 +3967,11 @@ theorem exWriteQueryUnion_exact (env : Env) (isInsert : Bool) (tgt : List String
           rw [← this]; exact (unionBranchPairs_spec env tgt b1.1 b x).mpr hx
     refine ⟨(g0 (mkTable env tgt none)).compose g2, ?_, edgesExact_compose (g0 (mkTable env tgt none)) g2 _ _ _
       (by intro e he; rw [g0_edges] at he; cases he) (by intro e he; rw [g0_edges] at he; cases he)
-      (edgesExact_of_wired hb hwfin (specPairsUnion_isCol env tgt (b1 :: restp)) ?_ (by intro p hp'; cases hp'))⟩
+      (edgesExact_of_wired hb hwfin (specPairsUnion_isCol env tgt (b1 :: restp)) ?_ (by intro p hp'; cases hp')),
+      by
+        rw [hd]
+        exact tagFacts_of_wired _ _ _ (.table s nm) g2 _ hTRall hb hwfin
+          (by intro n; rw [g0_tag]; simp) (by intro n; rw [g0_tag]; simp)⟩
     · rw [exWriteQuery_eq]
       unfold wq0
       rw [writeTargetHolder_none env isInsert tgt hp, exQuery_setop_tab env _ first rest hf hr]
@@ -3918,6 +3984,14 @@ theorem exWriteQueryUnion_exact (env : Env) (isInsert : Bool) (tgt : List String
     · intro u v
       rw [hbE]; simp
 
+
+theorem exWriteQueryUnion_exact (env : Env) (isInsert : Bool) (tgt : List String) (first : Branch) (rest : List OpBranch)
+    (hp : env.prov.truthy = false) (hfrag : fragSetop env tgt (.setop first rest) = true) :
+    ∃ g, exWriteQuery env isInsert tgt none (.setop first rest) = .ok g ∧
+      EdgesExact g (specPairsUnion env tgt (setopParts first rest))
+        ((setopParts first rest).flatMap (fun b => fromTabs env b.2)) [] := by
+  obtain ⟨g, h1, h2, _⟩ := exWriteQueryUnion_exact' env isInsert tgt first rest hp hfrag
+  exact ⟨g, h1, h2⟩
 
 /-- **end to end, statement level, set operation** -/
 theorem analyze_exact_setop (env : Env) (silent : Bool) (s : Stmt) (hp : env.prov.truthy = false)
